@@ -45,8 +45,8 @@ impl FromBytes for SerializedTlvStream {
         //let mut b: bytes::Bytes = r.into();
         let mut entries: Vec<TlvEntry> = vec![];
         while b.remaining() >= 2 {
-            let typ = b.get_compact_size();
-            let len = b.get_compact_size() as usize;
+            let typ = b.get_compact_size()?;
+            let len = b.get_compact_size()? as usize;
             if b.remaining() < len {
                 return Err(anyhow!(
                     "trying to advance {}, but remaining length is {}",
@@ -70,13 +70,29 @@ pub type TU64 = u64;
 
 /// Extensions on top of `Buf` to include LN proto primitives
 pub trait ProtoBuf: Buf {
-    fn get_compact_size(&mut self) -> CompactSize {
-        match self.get_u8() {
+    fn get_compact_size(&mut self) -> Result<CompactSize, anyhow::Error> {
+        if !self.has_remaining() {
+            return Err(anyhow!("unexpected end of data reading compact size"));
+        }
+        let needed = match self.chunk()[0] {
+            253 => 2,
+            254 => 4,
+            255 => 8,
+            _ => 0,
+        };
+        if self.remaining() < 1 + needed {
+            return Err(anyhow!(
+                "unexpected end of data reading compact size: need {} more bytes, have {}",
+                needed,
+                self.remaining() - 1
+            ));
+        }
+        Ok(match self.get_u8() {
             253 => self.get_u16().into(),
             254 => self.get_u32().into(),
             255 => self.get_u64(),
             v => v.into(),
-        }
+        })
     }
 
     fn get_tu64(&mut self) -> Result<TU64, anyhow::Error> {
@@ -170,7 +186,7 @@ impl TryFrom<Vec<u8>> for SerializedTlvStream {
             });
         }
         // Skip the length prefix
-        let l = b.get_compact_size();
+        let l = b.get_compact_size()?;
         let b = b.take(l as usize); // Protect against overruns
 
         Self::from_bytes(b.into_inner())
